@@ -13,15 +13,16 @@ LEVEL = "fault_enumeration"
 TLS_CLASSES = [(tls.SSL30, 0x0035, False), (tls.TLS10, 0x0005, False), (tls.TLS10, 0x002F, False), (tls.TLS11, 0x000A, False),
                (tls.TLS12, 0xC02F, False), (tls.TLS12, 0x003C, True), (tls.TLS12, 0xCCA8, False), (tls.TLS13, 0x1301, False),
                (tls.TLS13, 0x1303, False)]
-TLS_SHAPES = ["per_record", "span3", "coalesced", "mss7", "reordered", "duplicated", "coalesced_retransmission"]
-QUIC_SHAPES = ["default", "coalesced", "key_update", "zero_rtt", "chacha_retry", "two_flows"]
+TLS_SHAPES = ["per_record", "span3", "coalesced", "mss7", "reordered", "duplicated", "coalesced_retransmission", "seq_wrap"]
+QUIC_SHAPES = ["default", "coalesced", "key_update", "zero_rtt", "chacha_retry", "two_flows", "rebinding", "rebinding_early"]
 
 
 def describe(tier):
     return {
         "rule": f"{len(TLS_CLASSES)} TLS classes x {len(TLS_SHAPES)} packetisations (one record per segment, records spanning 3 "
-                "segments, coalesced flights with two records per segment, 7-byte segments, a displaced segment, a retransmission, a coalescing retransmission) + "
-                f"{len(QUIC_SHAPES)} QUIC captures (default, coalesced, key updates, 0-RTT, ChaCha20 with Retry, two interleaved flows); "
+                "segments, coalesced flights with two records per segment, 7-byte segments, a displaced segment, a retransmission, a coalescing retransmission, sequence numbers wrapping at 2^32 inside the data) + "
+                f"{len(QUIC_SHAPES)} QUIC captures (default, coalesced, key updates, 0-RTT, ChaCha20 with Retry, two interleaved flows, the client's UDP port changing in mid-connection (NAT rebinding) late and early); "
+                "for QUIC the exported DATAGRAMS (addresses and payload) of a cut must be a prefix of the next cut's; "
                 "every cut position 0..N of every capture. non-trivial: a cut whose export is strictly longer than the previous "
                 "cut's; distinct = distinct (capture, cut)",
         "exhaustive": True,
@@ -58,7 +59,7 @@ def build(case):
         conn = scen.tls_conn(scn, seed)
         e = cap.Ends(4, v6=(case["cls"] % 2 == 1))
         mss = {"per_record": 1460, "span3": 300, "coalesced": 1460, "mss7": 7, "reordered": 300, "duplicated": 300,
-               "coalesced_retransmission": 300}[sh]
+               "coalesced_retransmission": 300, "seq_wrap": 300}[sh]
         if sh == "coalesced":
             # merge consecutive sends of one direction so that one segment carries several records
             sends, out = scen.tls_sends(conn), []
@@ -68,6 +69,10 @@ def build(case):
                 else:
                     out.append((d, b))
             pk = cap.tcp_packets(0, out, mss=mss)
+        elif sh == "seq_wrap":
+            # both initial sequence numbers close below 2^32: the numbers wrap inside the handshake (client) / the data (server)
+            hs_len = sum(len(b) for d, b in scen.tls_sends(conn) if d == "s") - len(conn.plain["s"])
+            pk = scen.tls_packets(conn, mss=mss, isn=(0xFFFFFFFF - 40, (0xFFFFFFFF - hs_len - 350) & 0xFFFFFFFF))
         else:
             pk = scen.tls_packets(conn, mss=mss)
         data_idx = [i for i, p in enumerate(pk) if p.payload]
@@ -116,10 +121,25 @@ def build(case):
             fr, data = conn.stream_frames([(0 if d == "c" else 3, 15 + i)])
             conn.dgram(d, [conn.short_pkt(d, fr, gen=g)], stream=data, tag=f"ku{g}")
         flows.append(scen.Flow("quic", conn, cap.Ends(0), 0, scen.quic_packets(conn, 0)))
+    elif sh in ("rebinding", "rebinding_early"):
+        # NAT rebinding: from some datagram on the client's packets come from (and the server's go to) another UDP port;
+        # connection ids stay (RFC 9000 section 9: a peer-address change that is not a migration by the endpoint)
+        f = scen.quic_flow({"script": [("c", [(0, 30)]), ("s", [(0, 200)]), ("c", [(0, 12)]), ("s", [(0, 31)]), ("c", [(4, 9)]), ("s", [(0, 7)])]},
+                           seed, 0)
+        data = [i for i, g in enumerate(f.conn.dgrams) if g.stream]
+        at = data[3] if sh == "rebinding" else data[1]
+        for p in f.pkts[at:]:
+            p.conn = 50
+        flows.append(f)
     else:
         flows.append(scen.quic_flow({"ccid_len": 0}, seed, 0))
         flows.append(scen.tls_flow({"version": tls.TLS13, "suite": 0x1302, "history": [("c", 20), ("s", 2000), ("c", 3)]}, seed, 1))
     ends = {f.id: f.ends for f in flows}
+    if sh.startswith("rebinding"):
+        e2 = cap.Ends(0)
+        e2.client.port = flows[0].ends.client.port + 1000
+        ends[50] = e2
+        flows[0].alt_ends = e2
     pkts = cap.stamp(scen.round_robin([f.pkts for f in flows]), ends)
     lines = []
     for f in flows:
@@ -131,8 +151,13 @@ def export_of(an, f):
     if f.kind == "tls":
         c = scen.tcp_streams(an, f.ends)
         return {"c": c["c2s"] if c else b"", "s": c["s2c"] if c else b""}
-    ex = scen.udp_export(an, f.ends)
-    return {"c": [p for d, p, _ in ex if d == "c"], "s": [p for d, p, _ in ex if d == "s"]}
+    ex = [(ts, d, p, f.ends.client.port) for d, p, ts in scen.udp_export(an, f.ends)]
+    if getattr(f, "alt_ends", None) is not None:
+        ex += [(ts, d, p, f.alt_ends.client.port) for d, p, ts in scen.udp_export(an, f.alt_ends)]
+        ex.sort(key=lambda x: x[0])
+    # "dgrams": the exported datagrams with the client port they carry - what a longer capture must not alter
+    return {"c": [p for ts, d, p, _ in ex if d == "c"], "s": [p for ts, d, p, _ in ex if d == "s"],
+            "dgrams": [(d, cp, p) for ts, d, p, cp in ex]}
 
 
 def is_prefix(a, b):
@@ -176,6 +201,9 @@ def run_case(case):
                                   "sub": {"cut": cut}, "detail": f"export of the first {cut - 1} packets is not a prefix of the export of the first {cut}"})
                 if prev is not None and len(cur[f.id][d]) > len(prev[f.id][d]):
                     grew = True
+            if prev is not None and "dgrams" in cur[f.id] and not is_prefix(prev[f.id]["dgrams"], cur[f.id]["dgrams"]):
+                fails.append({"kind": "exported_datagrams_altered_by_longer_capture", "sig": dict(name, flow=f.kind),
+                              "sub": {"cut": cut}, "detail": f"the datagrams exported from the first {cut - 1} packets are not a prefix of those from the first {cut}"})
         if cut == 0 and an["packets"]:
             fails.append({"kind": "empty_capture_exports_packets", "sig": name, "detail": str(len(an["packets"]))})
         if grew:
